@@ -1,4 +1,4 @@
-SPECIFICATION GSpec
+SPECIFICATION GSpecSim
 CONSTANTS Names = {"n1"}
           Cids = {"A","B"}
           Forms = {"b36"}
@@ -11,11 +11,11 @@ CONSTANTS Names = {"n1"}
           CacheSizes = {0,1}
           MaxTTLCaps = {0}
           Depths = {1}
-          MaxNow = 1
+          MaxNow = 2
           MaxSeq = 9
-          D = 2
-          E = 2
+          D = 1000
+          E = 4
           ChainMode = FALSE
           Prefix = 0
           Devs = {}
-INVARIANTS Emit
+
